@@ -292,7 +292,7 @@ never fails on a statement, and ends in an antichain. -/
 theorem several {m : LMap} (L : Loaded m) : ∀ (ds R rem : List Id), Antichain m R → Unrelated m ds →
     (∀ d ∈ ds, d ∈ m.ids ∧ C16.Plain d) → rem.Nodup → (∀ x ∈ rem, x ∈ R) →
     (∀ d ∈ ds, ∀ x ∈ R, Lineage m d x → x ∈ rem) →
-    ∃ steps tr, stampLoop m true rem (ds.map some) = .ok steps ∧ runSteps m R steps = .ok tr ∧
+    ∃ steps tr, stampLoop m rem (ds.map some) = .ok steps ∧ runSteps m R steps = .ok tr ∧
       RowSet (tr.getLastD R) (fun x => (x ∈ R ∧ ∀ d ∈ ds, ¬ Lineage m d x) ∨ x ∈ ds) ∧
       Antichain m (tr.getLastD R) := by
   intro ds
@@ -406,33 +406,22 @@ theorem mapM_filter_full (m : LMap) (R : List Id) : ∀ (ds : List Id), FullIds 
 
 /-- `_stamp_revs` for destinations given as full revision ids -/
 theorem stampRevs_ids (m : LMap) (ds R : List Id) (hne : ds ≠ []) (hds : FullIds m ds) (hR : FullIds m R) :
-    stampRevs m ds R = stampLoop m (decide (ds.length > 1))
+    stampRevs m ds R = stampLoop m
       (dedupe (ds.map (fun d => R.filter (fun t => sharesLineage m t [d] true))).flatten) (ds.map some) := by
   unfold stampRevs
   have he : ds.isEmpty = false := by cases ds <;> simp_all
   have he' : (ds.map some).isEmpty = false := by cases ds <;> simp_all
   simp only [getRevisionsMany_full m R hR, getRevisionsMany_full m ds hds, bind, Except.bind, filterMap_id_map_some,
-    he, he', Bool.false_eq_true, if_false, List.length_map, pure, Except.pure]
+    he, he', Bool.false_eq_true, if_false, pure, Except.pure]
   rw [mapM_filter_full m R ds hds]
 
-/-- **`stamp d`, the command.** From an antichain of rows, `stamp d` for a revision id `d` ends
-with exactly `(rows \ lineage(d)) ∪ {d}`, an antichain. -/
-theorem stamp_one {m : LMap} (L : Loaded m) (R : List Id) (hR : Antichain m R) (hRf : FullIds m R)
-    (d : Id) (hd : FullIds m [d]) :
-    ∃ R', stamp m [d] R = .ok R' ∧ RowSet R' (fun x => (x ∈ R ∧ ¬ Lineage m d x) ∨ x = d) ∧ Antichain m R' := by
-  obtain ⟨steps, tr, h1, h2, h3, h4⟩ := single L R hR d
-  refine ⟨tr.getLastD R, ?_, h3, h4⟩
-  unfold stamp
-  rw [stampRevs_ids m [d] R (by simp) hd hRf]
-  have hnd : (R.filter (fun t => sharesLineage m t [d] true)).Nodup := List.Pairwise.filter _ hR.1
-  simp [stampLoop, dedupe_of_nodup _ hnd, h1, h2, bind, Except.bind, pure, Except.pure]
-
-/-- **`stamp d1 d2 …`, the command**, for pairwise unrelated revision ids. -/
+/-- **`stamp d1 d2 …`, the command** (one or several revision ids, pairwise unrelated): from an
+antichain of rows the version table ends with exactly `(rows \ lineage(ds)) ∪ ds`, an
+antichain, and no statement fails. -/
 theorem stamp_several {m : LMap} (L : Loaded m) (R : List Id) (hR : Antichain m R) (hRf : FullIds m R)
-    (ds : List Id) (hlen : ds.length > 1) (hds : FullIds m ds) (hU : Unrelated m ds) :
+    (ds : List Id) (hne : ds ≠ []) (hds : FullIds m ds) (hU : Unrelated m ds) :
     ∃ R', stamp m ds R = .ok R' ∧
       RowSet R' (fun x => (x ∈ R ∧ ∀ d ∈ ds, ¬ Lineage m d x) ∨ x ∈ ds) ∧ Antichain m R' := by
-  have hne : ds ≠ [] := by intro e; rw [e] at hlen; simp at hlen
   have hmem : ∀ x, x ∈ dedupe (ds.map (fun d => R.filter (fun t => sharesLineage m t [d] true))).flatten ↔
       x ∈ R ∧ ∃ d ∈ ds, Lineage m d x := by
     intro x
@@ -449,7 +438,16 @@ theorem stamp_several {m : LMap} (L : Loaded m) (R : List Id) (hR : Antichain m 
   refine ⟨tr.getLastD R, ?_, h3, h4⟩
   unfold stamp
   rw [stampRevs_ids m ds R hne hds hRf]
-  simp [hlen, h1, h2, bind, Except.bind, pure, Except.pure]
+  simp [h1, h2, bind, Except.bind, pure, Except.pure]
+
+/-- **`stamp d`, the command.** From an antichain of rows, `stamp d` for a revision id `d` ends
+with exactly `(rows \ lineage(d)) ∪ {d}`, an antichain. -/
+theorem stamp_one {m : LMap} (L : Loaded m) (R : List Id) (hR : Antichain m R) (hRf : FullIds m R)
+    (d : Id) (hd : FullIds m [d]) :
+    ∃ R', stamp m [d] R = .ok R' ∧ RowSet R' (fun x => (x ∈ R ∧ ¬ Lineage m d x) ∨ x = d) ∧ Antichain m R' := by
+  obtain ⟨R', h1, h2, h3⟩ := stamp_several L R hR hRf [d] (by simp) hd ⟨by simp, by simp⟩
+  refine ⟨R', h1, ⟨h2.nodup, ?_⟩, h3⟩
+  intro x; rw [h2.iff x]; simp
 
 theorem filterForLineage_base (m : LMap) (l : List Id) (b : Bool) : filterForLineage m l "base" b = .ok l := by
   unfold filterForLineage resolveFuel resolveShares resolveRevisionNumber
@@ -523,7 +521,7 @@ theorem stamp_heads {h : Hist} {o : LoadOpts} {m : LMap} (hl : load h o = .ok m)
     rintro (hl' | hl')
     · exact key a ha b hb hne hl'
     · exact key b hb a ha (Ne.symm hne) hl'
-  have hrevs : stampRevs m ["heads"] R = stampLoop m (decide (m.realHeads.length > 1)) R
+  have hrevs : stampRevs m ["heads"] R = stampLoop m R
       (if (m.realHeads.map some).isEmpty then [none] else m.realHeads.map some) := by
     unfold stampRevs
     have hg : getRevisionsMany m ["heads"] = .ok (m.realHeads.map some) := by
@@ -533,34 +531,19 @@ theorem stamp_heads {h : Hist} {o : LoadOpts} {m : LMap} (hl : load h o = .ok m)
     simp only [getRevisionsMany_full m R hRf, hg, bind, Except.bind, filterMap_id_map_some, List.isEmpty_cons,
       Bool.false_eq_true, if_false, List.mapM_cons, List.mapM_nil, he, filterForLineage_heads L hrh R hsub, pure,
       Except.pure, List.flatten_cons, List.flatten_nil, List.append_nil, dedupe_of_nodup R hR.1]
-    congr 1
-    cases m.realHeads <;> simp
   unfold stamp
   rw [hrevs]
-  match hq : m.realHeads, hUn, hHf, hcover with
-  | [], _, _, hcover =>
-    have hRe : R = [] := by
+  by_cases hq : m.realHeads = []
+  · have hRe : R = [] := by
       apply List.eq_nil_iff_forall_not_mem.mpr
-      intro x hx; obtain ⟨hh, hm, _⟩ := hcover x hx; simp at hm
+      intro x hx; obtain ⟨hh, hm, _⟩ := hcover x hx; rw [hq] at hm; simp at hm
     subst hRe
+    rw [hq]
     refine ⟨[], by simp [stampLoop, stampDest, runSteps, bind, Except.bind, pure, Except.pure], ⟨List.nodup_nil, by simp⟩, hR⟩
-  | [hh], _, _, hcover =>
-    have hF : ∀ x, x ∈ R ↔ x ∈ R ∧ Lineage m hh x := by
-      intro x
-      refine ⟨fun hx => ⟨hx, ?_⟩, And.left⟩
-      obtain ⟨h', hm, hl'⟩ := hcover x hx
-      simp only [List.mem_singleton] at hm
-      exact hm ▸ hl'
-    obtain ⟨steps, tr, h1, h2, h3, h4⟩ := single_gen L R hR hh R hR.1 hF
-    refine ⟨tr.getLastD R, by simp [stampLoop, h1, h2, bind, Except.bind, pure, Except.pure], ⟨h3.nodup, ?_⟩, h4⟩
-    intro x; rw [h3.iff x]
-    simp only [List.mem_singleton]
-    exact ⟨fun hx => hx.elim (fun ⟨hxR, hn⟩ => absurd ((hF x).mp hxR).2 hn) id, Or.inr⟩
-  | a :: b :: r, hUn, hHf, hcover =>
-    obtain ⟨steps, tr, h1, h2, h3, h4⟩ := several L (a :: b :: r) R R hR hUn
+  · obtain ⟨steps, tr, h1, h2, h3, h4⟩ := several L m.realHeads R R hR hUn
       (fun d hd => ⟨(hHf d hd).1, (hHf d hd).2.1⟩) hR.1 (fun x hx => hx) (fun _ _ x hx _ => hx)
-    simp only [List.map_cons] at h1
-    refine ⟨tr.getLastD R, by simp [h1, h2, bind, Except.bind, pure, Except.pure], ⟨h3.nodup, ?_⟩, h4⟩
+    have hne : (m.realHeads.map some).isEmpty = false := by cases hc : m.realHeads <;> simp_all
+    refine ⟨tr.getLastD R, by simp [hne, h1, h2, bind, Except.bind, pure, Except.pure], ⟨h3.nodup, ?_⟩, h4⟩
     intro x; rw [h3.iff x]
     constructor
     · rintro (⟨hxR, hn⟩ | hx)
